@@ -365,6 +365,12 @@ class Interp:
                 pass
             count += 1
             if count > self.max_unroll:
+                if self.config.get("unroll_overflow_is_nontermination"):
+                    # units over a small concrete heap: a deterministic walk that revisits more states than the heap has
+                    # objects never ends
+                    self.path.fail(f"{self.target}#termination:loop-runs-more-than-{self.max_unroll}-iterations-on-a-finite-heap@{anchor(node.test)}",
+                                   detail="the loop does not terminate on this heap")
+                    raise PathEnd()
                 self.unsupported(f"while loop without invariant exceeds {self.max_unroll} iterations", node.test)
 
     def s_For(self, node, frame):
